@@ -254,6 +254,7 @@ func runGeneration(ev *evaluator, res *vh.Result, seed uint64, n int, tier strin
 		var wgc sync.WaitGroup
 		semc := make(chan struct{}, nw)
 		slow := &evaluator{pool: ev.pool, timeout: 2 * ev.timeout}
+		verySlow := &evaluator{pool: ev.pool, timeout: 2000, outTimeout: 20000}
 		for _, c := range cases {
 			for j := range c.verdicts {
 				if c.verdicts[j].kind == "" || !c.verdicts[j].judged {
@@ -264,7 +265,11 @@ func runGeneration(ev *evaluator, res *vh.Result, seed uint64, n int, tier strin
 				go func(c *caseResult, j int) {
 					defer wgc.Done()
 					defer func() { <-semc }()
-					v2 := slow.evalProgram(c.prog.Text, c.prog.Probes, []config{c.cfgs[j]})[0]
+					e2 := slow
+					if c.verdicts[j].kind == "timeout" {
+						e2 = verySlow // an output timeout must survive a 20 s budget to count
+					}
+					v2 := e2.evalProgram(c.prog.Text, c.prog.Probes, []config{c.cfgs[j]})[0]
 					if !v2.judged || v2.kind != c.verdicts[j].kind {
 						c.verdicts[j] = verdict{judged: false, kind: "unconfirmed", detail: c.verdicts[j].kind}
 						return
@@ -408,7 +413,7 @@ func kindClass(k string) string { return k }
 // introducing any known-defect shape.
 func shrinkCase(ev *evaluator, input string, probes []string, cfg config, v0 verdict, deadline time.Time) (string, verdict, string) {
 	base := scanKnown(input)
-	small := &evaluator{pool: ev.pool, timeout: 120}
+	small := &evaluator{pool: ev.pool, timeout: 150, outTimeout: 1500}
 	last := v0
 	test := func(cand string) bool {
 		if strings.TrimSpace(cand) == "" {
